@@ -97,7 +97,8 @@ def one_case(ctx, k):
     dt = ['int64', 'float32', 'float64', 'bool', 'uint8', 'int8'][k % 6]
     X = X.astype(dt)
     ctx.count('data-dtype:' + dt)
-    rep = dict(kind='c11', data=X.astype(int).tolist(), dtype=dt, alpha=alpha, scope=scope, explicit=explicit, arg=arg)
+    refits = 3 if k % 3 == 0 else 0
+    rep = dict(kind='c11', data=X.astype(int).tolist(), dtype=dt, alpha=alpha, scope=scope, explicit=explicit, arg=arg, refits=refits)
     ctx.case(fam, nontrivial_key=json.dumps([X.astype(int).tolist(), alpha, scope, explicit, arg]) if nv >= 2 else None,
              sample=dict(family=fam, rows=nr, vars=nv, alpha=alpha, scope=scope, root=('explicit' if explicit else 'random', arg)))
     ctx.count('family:' + fam)
@@ -111,6 +112,12 @@ def one_case(ctx, k):
             else:
                 clt = BinaryCLT(scope)
                 clt.fit(X, [[0, 1]] * nv, alpha=alpha, random_state=arg)
+            if refits:
+                # the same object fitted again on the same data (other random states): still the Chow-Liu tree of that data,
+                # rooted where the object says it is rooted
+                ctx.count('objects-fitted-more-than-once')
+                for j in range(refits):
+                    clt.fit(X, [[0, 1]] * nv, alpha=alpha, random_state=(None if explicit else arg + 7 * (j + 1)))
         except Exception as ex:
             ctx.violation('c11-fit-raises', f'fit raised {type(ex).__name__}: {ex} on {fam} data {nr}x{nv}, alpha={alpha}', replay=rep)
             return
@@ -193,8 +200,13 @@ def replay(rep):
         else:
             clt = BinaryCLT(r['scope'])
             clt.fit(X, [[0, 1]] * nv, alpha=r['alpha'], random_state=r['arg'])
+        for j in range(r.get('refits', 0)):
+            clt.fit(X, [[0, 1]] * nv, alpha=r['alpha'], random_state=(None if r['explicit'] else r['arg'] + 7 * (j + 1)))
     except Exception as ex:
         print('fit raised', type(ex).__name__, ex)
+        return False
+    if int(clt.tree[int(clt.root)]) != -1 or int(clt.bfs[0]) != int(clt.root) or (r['explicit'] and int(clt.root) != r['arg']):
+        print('root', int(clt.root), 'bfs', list(map(int, clt.bfs)), 'tree', list(map(int, clt.tree)), 'are inconsistent')
         return False
     mi = mi_float64(X, r['alpha'])
     tot = sum(mi[i, int(t)] for i, t in enumerate(clt.tree) if t != -1)
